@@ -539,4 +539,24 @@ def afterCommand (body : Body) (inTrap : Bool) (main : Option Divert) (t : TrapM
   let r := runTrapsForCaughtSignals body inTrap t exit
   { r with divert := mergeDivert main r.divert }
 
+/-! ## An interruptible built-in interrupted by SIGINT (`simple_command/builtin.rs`, `execute_builtin`) -/
+
+/-- the helper future of `execute_builtin` that runs beside an interruptible built-in (interactive
+    shell, no user trap for SIGINT): `loop { signals = wait_for_signals(); caught.extend(signals);
+    if signals.contains(SIGINT) { return } }` over the batches of signals the system reports.
+    Returns what it has recorded in `caught` and whether it returned (i.e. interrupted the built-in). -/
+def sigintLoop : List (List Nat) → List Nat → List Nat × Bool
+  | [], caught => (caught, false)
+  | batch :: rest, caught =>
+    let caught' := caught ++ batch
+    if batch.contains SIGINT then (caught', true) else sigintLoop rest caught'
+
+/-- `execute_builtin` for a built-in that does not finish by itself: after the helper returned,
+    `for signal in caught { env.traps.catch_signal(signal) }`, result `Interrupt(Some(384 + SIGINT))`.
+    This helper bypasses `Env::wait_for_signals`, so `caught` is the only way these signals reach
+    the trap set. -/
+def interruptedBuiltin (t : TrapMap) (batches : List (List Nat)) : TrapMap × Bool :=
+  let r := sigintLoop batches []
+  (r.1.foldl catchSignal t, r.2)
+
 end YashModel.Trap
